@@ -467,6 +467,165 @@ func (v *Verifier) VerifyStructural(name string, propNames []string) *FuncResult
 		}
 		sort.Strings(bad)
 		mk(len(bad) == 0 && nGlob > 0, fmt.Sprintf("%d writes to package-level variables of the module, all during package initialisation or inside the sync.Once of findGitBin; offending: %v", nGlob, bad))
+	case "sent-buffers-fresh":
+		// A byte slice handed to another goroutine over a channel must not be
+		// written again by the sender: every slice inside a sent value is cut
+		// from memory allocated after the previous send -- it does not come
+		// from a variable that lives across iterations of the sending loop,
+		// from a parameter, a captured variable or a package-level variable
+		// (C17: no data race between pipeline stages and aggregation; C09).
+		var bad []string
+		nSend := 0
+		for _, fn := range v.moduleFuncs() {
+			dom := func(a, b *ssa.BasicBlock) bool { return a.Dominates(b) }
+			isLoopHeader := func(b *ssa.BasicBlock) bool {
+				for _, p := range b.Preds {
+					if dom(b, p) {
+						return true
+					}
+				}
+				return false
+			}
+			var origin func(x ssa.Value, depth int, seen map[ssa.Value]bool) string
+			origin = func(x ssa.Value, depth int, seen map[ssa.Value]bool) string {
+				if x == nil || depth > 40 || seen[x] {
+					return ""
+				}
+				seen[x] = true
+				switch t := x.(type) {
+				case *ssa.MakeSlice, *ssa.Const, *ssa.Call:
+					return ""
+				case *ssa.Slice:
+					return origin(t.X, depth+1, seen)
+				case *ssa.ChangeType:
+					return origin(t.X, depth+1, seen)
+				case *ssa.Convert:
+					return "" // string <-> []byte conversions copy
+				case *ssa.Phi:
+					if isLoopHeader(t.Block()) {
+						return "a variable that lives across iterations (" + t.Comment + ")"
+					}
+					for _, e := range t.Edges {
+						if r := origin(e, depth+1, seen); r != "" {
+							return r
+						}
+					}
+					return ""
+				case *ssa.Parameter:
+					return "parameter " + t.Name()
+				case *ssa.FreeVar:
+					return "captured variable " + t.Name()
+				case *ssa.Global:
+					return "package-level variable " + t.Name()
+				case *ssa.UnOp:
+					if t.Op == token.MUL {
+						if a, ok := t.X.(*ssa.Alloc); ok {
+							// a local variable in memory: what was stored into it
+							for _, r := range *a.Referrers() {
+								if st, ok := r.(*ssa.Store); ok && st.Addr == a {
+									if o := origin(st.Val, depth+1, seen); o != "" {
+										return o
+									}
+								}
+							}
+							return ""
+						}
+						return origin(t.X, depth+1, seen)
+					}
+					return ""
+				case *ssa.FieldAddr:
+					return origin(t.X, depth+1, seen)
+				case *ssa.IndexAddr:
+					return origin(t.X, depth+1, seen)
+				case *ssa.Alloc:
+					if t.Heap {
+						return ""
+					}
+					return ""
+				}
+				return ""
+			}
+			hasByteSlice := func(t types.Type) bool {
+				var rec func(t types.Type, d int) bool
+				rec = func(t types.Type, d int) bool {
+					if d > 6 {
+						return false
+					}
+					switch u := t.Underlying().(type) {
+					case *types.Slice:
+						return true
+					case *types.Struct:
+						for i := 0; i < u.NumFields(); i++ {
+							if rec(u.Field(i).Type(), d+1) {
+								return true
+							}
+						}
+					}
+					return false
+				}
+				return rec(t, 0)
+			}
+			// slices stored in the fields of a struct value that is sent
+			var sentSlices func(x ssa.Value, depth int) []ssa.Value
+			sentSlices = func(x ssa.Value, depth int) []ssa.Value {
+				if depth > 8 || x == nil {
+					return nil
+				}
+				if _, ok := x.Type().Underlying().(*types.Slice); ok {
+					return []ssa.Value{x}
+				}
+				if _, ok := x.Type().Underlying().(*types.Struct); !ok {
+					return nil
+				}
+				var out []ssa.Value
+				if u, ok := x.(*ssa.UnOp); ok && u.Op == token.MUL {
+					if a, ok := u.X.(*ssa.Alloc); ok {
+						for _, r := range *a.Referrers() {
+							switch r := r.(type) {
+							case *ssa.FieldAddr:
+								for _, rr := range *r.Referrers() {
+									if st, ok := rr.(*ssa.Store); ok && st.Addr == r {
+										out = append(out, sentSlices(st.Val, depth+1)...)
+									}
+								}
+							case *ssa.Store:
+								if r.Addr == a {
+									out = append(out, sentSlices(r.Val, depth+1)...)
+								}
+							}
+						}
+					}
+				}
+				return out
+			}
+			check := func(val ssa.Value, at ssa.Instruction) {
+				if !hasByteSlice(val.Type()) {
+					return
+				}
+				nSend++
+				for _, sl := range sentSlices(val, 0) {
+					if o := origin(sl, 0, map[ssa.Value]bool{}); o != "" {
+						bad = append(bad, fn.String()+" ("+v.posStr(at.Pos())+"): a slice sent over a channel is cut from "+o)
+					}
+				}
+			}
+			for _, b := range fn.Blocks {
+				for _, in := range b.Instrs {
+					switch in := in.(type) {
+					case *ssa.Send:
+						check(in.X, in)
+					case *ssa.Select:
+						for _, st := range in.States {
+							if st.Dir == types.SendOnly && st.Send != nil {
+								check(st.Send, in)
+							}
+						}
+					}
+				}
+			}
+		}
+		sort.Strings(bad)
+		mk(len(bad) == 0 && nSend > 0, fmt.Sprintf("%d channel sends carry slices, each cut from memory allocated since the previous send; offending: %v", nSend, bad))
 	case "atomic-consistency":
 		// A memory cell that is accessed through sync/atomic anywhere is
 		// accessed through sync/atomic everywhere (outside constructors'
